@@ -28,6 +28,25 @@ inductive HashAlg | sha256 | sha384 | sha512
 def HashAlg.name : HashAlg → String
   | .sha256 => "sha256" | .sha384 => "sha384" | .sha512 => "sha512"
 
+/-- authorization parameters a request object (oidc.RequestObject) may carry besides iss / aud -/
+structure ROParams where
+  ResponseType : String := ""
+  Scopes : List String := []
+  RedirectURI : String := ""
+  State : String := ""
+  ResponseMode : String := ""
+  Nonce : String := ""
+  Display : String := ""
+  Prompt : List String := []
+  MaxAge : Option Nat := none
+  UILocales : List String := []
+  IDTokenHint : String := ""
+  LoginHint : String := ""
+  ACRValues : List String := []
+  CodeChallenge : String := ""
+  CodeChallengeMethod : String := ""
+  deriving DecidableEq, Repr, Inhabited
+
 /-- The claims the verifiers look at (getter names are those of Go's `oidc.Claims`).
     Times are `oidc.Time` (seconds, 0 = absent). -/
 structure Claims where
@@ -44,6 +63,7 @@ structure Claims where
   cHash : String := ""
   clientID : String := ""
   sigAlg : String := ""            -- set by CheckSignature, not part of the payload
+  ro : ROParams := {}              -- request-object parameters (empty for ordinary tokens)
   deriving DecidableEq, Repr, Inhabited
 
 namespace Claims
@@ -62,6 +82,24 @@ def SetSignatureAlgorithm (c : Claims) (alg : String) : Claims := { c with sigAl
 -- direct field access as in `oidc.JWTTokenRequest`
 def Issuer (c : Claims) := c.iss
 def Subject (c : Claims) := c.sub
+-- oidc.RequestObject fields
+def ClientID (c : Claims) := c.clientID
+def Audience (c : Claims) := c.aud
+def ResponseType (c : Claims) := c.ro.ResponseType
+def Scopes (c : Claims) := c.ro.Scopes
+def RedirectURI (c : Claims) := c.ro.RedirectURI
+def State (c : Claims) := c.ro.State
+def ResponseMode (c : Claims) := c.ro.ResponseMode
+def Nonce (c : Claims) := c.ro.Nonce
+def Display (c : Claims) := c.ro.Display
+def Prompt (c : Claims) := c.ro.Prompt
+def MaxAge (c : Claims) := c.ro.MaxAge
+def UILocales (c : Claims) := c.ro.UILocales
+def IDTokenHint (c : Claims) := c.ro.IDTokenHint
+def LoginHint (c : Claims) := c.ro.LoginHint
+def ACRValues (c : Claims) := c.ro.ACRValues
+def CodeChallenge (c : Claims) := c.ro.CodeChallenge
+def CodeChallengeMethod (c : Claims) := c.ro.CodeChallengeMethod
 end Claims
 
 /-- A payload: the bytes (identified symbolically) and what `json.Unmarshal` makes of them. -/
